@@ -149,3 +149,47 @@ Proof.
   - apply Hm; destruct Hx; split; [ assumption | constructor; [ assumption | constructor ] ].
   - apply Hm in Hx; destruct Hx as (H1 & H2); inversion H2; subst; tauto.
 Qed.
+
+(* pairwise intersection as a set operation: commutative, idempotent, and the order `contains`
+   is the one it induces (a contains b  iff  a /\ b = b) -- equalities of VALUES, which is where
+   the single canonical empty span matters *)
+Lemma inter2_mem (a b : TimespanGen.ts) : wf a -> wf b ->
+  wf (inter GEN_MAX a [b]) /\ forall x, mem x (inter GEN_MAX a [b]) <-> (mem x a /\ mem x b).
+Proof.
+  intros Ha Hb.
+  destruct (inter_spec_p a [b] Ha (Forall_cons b Hb (Forall_nil _))) as (Hw & Hm).
+  split; [ exact Hw | ]. intros x; rewrite Hm; split.
+  - intros (H1 & H2); inversion H2; subst; tauto.
+  - intros (H1 & H2); split; [ assumption | constructor; [ assumption | constructor ] ].
+Qed.
+
+Lemma inter_comm_p : forall a b, wf a -> wf b -> inter GEN_MAX a [b] = inter GEN_MAX b [a].
+Proof.
+  intros a b Ha Hb.
+  destruct (inter2_mem a b Ha Hb) as (W1 & M1), (inter2_mem b a Hb Ha) as (W2 & M2).
+  apply (eq_ext_p _ _ W1 W2); intros x; rewrite M1, M2; tauto.
+Qed.
+
+Lemma inter_idem_p : forall a, wf a -> inter GEN_MAX a [a] = a.
+Proof.
+  intros a Ha. destruct (inter2_mem a a Ha Ha) as (W1 & M1).
+  apply (eq_ext_p _ _ W1 Ha); intros x; rewrite M1; tauto.
+Qed.
+
+Lemma contains_iff_inter_p : forall a b, wf a -> wf b ->
+  (py_contains a b = true <-> inter GEN_MAX a [b] = b).
+Proof.
+  intros a b Ha Hb. destruct (inter2_mem a b Ha Hb) as (W1 & M1).
+  rewrite (contains_spec_p a b Ha Hb), (eq_ext_p _ _ W1 Hb). split.
+  - intros H x; rewrite M1; split; [ tauto | intros Hx; split; [ apply H | ]; assumption ].
+  - intros H x Hx; apply H in Hx; apply M1 in Hx; tauto.
+Qed.
+
+Lemma inter_assoc_p : forall a b c, wf a -> wf b -> wf c ->
+  inter GEN_MAX (inter GEN_MAX a [b]) [c] = inter GEN_MAX a [inter GEN_MAX b [c]].
+Proof.
+  intros a b c Ha Hb Hc.
+  destruct (inter2_mem a b Ha Hb) as (Wab & Mab), (inter2_mem b c Hb Hc) as (Wbc & Mbc).
+  destruct (inter2_mem _ c Wab Hc) as (W1 & M1), (inter2_mem a _ Ha Wbc) as (W2 & M2).
+  apply (eq_ext_p _ _ W1 W2); intros x; rewrite M1, M2, Mab, Mbc; tauto.
+Qed.
